@@ -654,6 +654,15 @@ ENGINES = [ENGINE]
 # ----------------------------------------------------------------------------
 # C11: the loading and command-line half
 # ----------------------------------------------------------------------------
+def os_exit_status(code):
+    '''what the parent of a python process sees of sys.exit(code): the low eight bits of an integer, 1 for any other object'''
+    if code is None:
+        return 0
+    if isinstance(code, int):
+        return code & 0xFF
+    return 1
+
+
 class Load11Engine(DeliveryEngine):
     '''
     Over-populated ends are only reachable by loading duplicate keys, and the
@@ -706,6 +715,10 @@ class Load11Engine(DeliveryEngine):
                                            else ['xtuml', 'xtuml', 'xtuml_module']),
                         'files': rng.randint(1, 3), 'order': rng.getrandbits(20)})
         case['cfg']['cli'] = cli
+        if rng.random() < 0.04:
+            # a population whose number of violations is a multiple of 256: what the operating system keeps of an
+            # exit status is its low eight bits
+            case['cfg']['cli_wrap'] = {'n': rng.choice([256, 256, 512]), 'tool': rng.choice(['xtuml_module', 'bridgepoint_module'])}
         case['cfg']['api'] = False
         return case
 
@@ -890,6 +903,7 @@ class Load11Engine(DeliveryEngine):
                         want_nonzero = (exp_a + elo) > 0
                         if exp_a + elo == 0 and ehi > 0:
                             continue
+                        got = os_exit_status(got)
                         if bool(got) is not want_nonzero:
                             raise Violation('cli', 'python -m ' + modname + ' %s exited with %r, the files hold %d '
                                             'association and %d..%d identifier violations' % (' '.join(args), got, exp_a, elo, ehi),
@@ -903,6 +917,28 @@ class Load11Engine(DeliveryEngine):
                     if c['r'] or c['k']:
                         bump(probes, 'cli_restricted')
                     log.event('cli', step, tool, got)
+                w = cfg.get('cli_wrap')
+                if w:
+                    step += 1
+                    text = 'CREATE TABLE Zw (Id INTEGER, Nm STRING);\nCREATE UNIQUE INDEX I1 ON Zw (Id);\n' + \
+                           ''.join("INSERT INTO Zw VALUES (7, 'r%d');\n" % j for j in range(w['n'] + 1))
+                    d.disk.put('/cli/wrap.sql', text)
+                    modname = 'bridgepoint.consistency_check' if w['tool'] == 'bridgepoint_module' else 'xtuml.consistency_check'
+                    argv = sys.argv
+                    sys.argv = ['consistency_check', '/cli/wrap.sql']
+                    try:
+                        runpy.run_module(modname, run_name='__main__')
+                        got = None
+                    except SystemExit as e:
+                        got = e.code
+                    finally:
+                        sys.argv = argv
+                    bump(probes, 'cli_exit_multiple_of_256')
+                    if not os_exit_status(got):
+                        raise Violation('cli', 'python -m %s on a file with %d rows sharing one identifier (%d violations) '
+                                        'exits with %r, of which the operating system keeps %d'
+                                        % (modname, w['n'] + 1, w['n'], got, os_exit_status(got)), 'cli:exit-status')
+                    log.event('cli', step, 'wrap', os_exit_status(got))
             finally:
                 d.uninstall()
         except Violation as v:
@@ -927,7 +963,7 @@ class Load11Engine(DeliveryEngine):
 
     def reach_missing(self, prop, tier, probes, faults):
         return [k for k in ('overpopulated_end_counted', 'cli_main', 'cli_module', 'cli_restricted', 'cli_exit_nonzero',
-                            'cli_exit_zero', 'check_nonzero_assoc') if not probes.get(k)]
+                            'cli_exit_zero', 'check_nonzero_assoc', 'cli_exit_multiple_of_256') if not probes.get(k)]
 
 
 LOAD11 = Load11Engine()
